@@ -29,6 +29,11 @@ func NewRecordBatchFromBytes(data []byte) (RecordBatch, error) {
 	}
 	baseOffset := int64(binary.BigEndian.Uint64(data[0:8]))
 	lastOffsetDelta := int32(binary.BigEndian.Uint32(data[23:27]))
+	if lastOffsetDelta < 0 {
+		// A negative delta would move the partition's next offset backwards and
+		// hand out offsets that are already taken.
+		return RecordBatch{}, fmt.Errorf("record batch has negative last offset delta %d", lastOffsetDelta)
+	}
 	messageCount := int32(binary.BigEndian.Uint32(data[57:61]))
 	return RecordBatch{
 		BaseOffset:      baseOffset,
